@@ -6,6 +6,7 @@ from . import containers as K
 from . import structure as S
 from . import machine as MM
 from . import platform as P
+from . import oracles as O
 from . import gen_machine as G
 import re
 
@@ -141,8 +142,10 @@ BIAS = {
 def machine_run(prop, streams=("random",)):
     def f(ctx):
         cfgs = MM.thorough_configs(ctx.rng) if ctx.thorough else MM.quick_configs(ctx.rng)
-        if prop == "C19":
-            cfgs = cfgs[:4]
+        if prop == "C04" and (ctx.thorough or ctx.broken):
+            # the largest limit the id type allows, with guards that redirect forever
+            cfgs = cfgs + [G.Config(2, L=255, cap=2, head=False, payload="none", ctx="ref"),
+                           G.Config(3, L=255, cap=1, head=True, manual=True, payload="none", ctx="ref")]
         with ThreadPoolExecutor(max_workers=C.NCPU) as ex:
             built = list(ex.map(MM.build, cfgs))
         ncase = 400 if ctx.thorough else 90
@@ -156,10 +159,17 @@ def machine_run(prop, streams=("random",)):
                 cases += [MM.gen_case(ctx.rng, cfg, "r%d" % k, ctx.rng.randint(8, 24), BIAS.get(prop)) for k in range(ncase)]
             if "pingpong" in streams:
                 cases += [MM.pingpong_case(ctx.rng, cfg, "pp%d" % k) for k in range(ncase // 4)]
+            if "planveto" in streams and cfg.plans:
+                cases += [MM.plan_veto_case(ctx.rng, cfg, "pv%d" % k) for k in range(ncase // 2)]
             if "replica" in streams and cfg.history:
                 cases += [MM.replica_case(ctx.rng, cfg, "rep%d" % k, ctx.rng.randint(4, 14)) for k in range(ncase // 2)]
-            rc_i, ci, rc_m, cm = MM.run_cases(exe, cases)
+            rc_i, ci, rc_m, cm = MM.run_cases(exe, cases, timeout=(240 if ctx.thorough else 60) * (2 if cfg.L == 255 else 1))
             ctx.stats["programs"] = ctx.stats.get("programs", 0) + 1
+            if rc_i == -999:
+                bad = cases[len(ci) - 1] if 0 < len(ci) <= len(cases) else None
+                ctx.failures.append({"what": "an API call of the implementation did not return (non-termination) in case %d of %d" % (len(ci), len(cases)),
+                                     "case": bad, "cfg": cfg.cfg_line(), "last_output": (ci[-1][-4:] if ci else [])})
+                continue
             if rc_i != 0 or len(ci) != len(cases):
                 bad = cases[len(ci) - 1] if 0 < len(ci) <= len(cases) else None
                 ctx.failures.append({"what": "implementation harness crashed (rc=%d) after %d of %d cases" % (rc_i, len(ci), len(cases)),
@@ -179,6 +189,15 @@ def machine_run(prop, streams=("random",)):
                     if l.startswith("FAIL:") or "CORRUPT" in l:
                         ctx.failures.append({"what": l, "case": case, "cfg": cfg.cfg_line()})
                         break
+                v = O.run(prop, case[1], a)
+                if v and sum(1 for f_ in ctx.failures if "oracle" in f_) < 2:
+                    def still(c, _exe=exe):
+                        r = MM.run_cases(_exe, [c], timeout=60)
+                        return bool(r[1]) and O.run(prop, c[1], r[1][0]) is not None
+                    mc = MM.minimise_case(exe, case, prop, still)
+                    r = MM.run_cases(exe, [mc], timeout=60)
+                    ctx.failures.append({"oracle": prop, "what": O.run(prop, mc[1], r[1][0]) or v, "minimal_case": mc, "cfg": cfg.cfg_line(),
+                                         "impl_trace": r[1][0][-14:]})
                 if prop == "C11" and case[0].startswith("case rep"):
                     v = MM.oracle_replica(a)
                     if v:
@@ -207,7 +226,7 @@ def machine_run(prop, streams=("random",)):
 
 def c10_run(ctx):
     container_run(["tasklist"])(ctx)
-    machine_run("C10")(ctx)
+    machine_run("C10", ("random", "planveto"))(ctx)
 
 
 def neutral_projection(lines):
@@ -240,52 +259,61 @@ def c19_run(ctx):
     ctx.extra["amalgamation_identical"] = j is None
     if j:
         ctx.failures.append(j)
-    # (ii) feature neutrality: the same feature-free scenario under every feature subset
-    base = dict(n=3, L=3, head=True, payload="u8", ctx="ref")
-    variants = []
+    # (ii) feature neutrality: the same feature-free scenario under every feature subset, for both activation modes
     import itertools
-    flags = list(itertools.product([False, True], repeat=4))
-    if not ctx.thorough:
-        flags = [f for k, f in enumerate(flags) if k in (0, 1, 2, 4, 8, 15, 6, 9)]
-    extras = [(), ("FFSM2_ENABLE_STRUCTURE_REPORT",), ("FFSM2_ENABLE_DEBUG_STATE_TYPE",), ("FFSM2_DISABLE_TYPEINDEX",),
-              ("FFSM2_ENABLE_STRUCTURE_REPORT", "FFSM2_ENABLE_DEBUG_STATE_TYPE", "FFSM2_DISABLE_TYPEINDEX")]
-    for k, (pl, hi, se, lg) in enumerate(flags):
-        variants.append(G.Config(plans=pl, history=hi, serial=se, log=lg, extra_defs=extras[k % len(extras)] if ctx.thorough or k < 5 else (), **base))
-    gen_cfg = G.Config(plans=False, history=False, serial=False, log=False, **base)
-    cases = [MM.gen_case(ctx.rng, gen_cfg, "n%d" % k, ctx.rng.randint(8, 20), {"menu": {"save": 0, "load": 0, "succeed": 0, "fail": 0, "planAppend": 0,
-             "planClear": 0, "planRemove": 0, "replayTransition": 0, "attachLogger": 0, "replayEnter": 0}}) for k in range(120 if ctx.thorough else 40)]
-    with ThreadPoolExecutor(max_workers=C.NCPU) as ex:
-        built = list(ex.map(MM.build, variants))
-    ref = None
-    for v, (exe, logtxt) in zip(variants, built):
-        if exe is None:
-            ctx.failures.append({"what": "machine harness does not compile under " + v.cfg_line()[:100] + " " + str(v.extra_defs),
-                                 "log": "\n".join([l for l in logtxt.split("\n") if "error" in l][:8])})
-            continue
-        vc = [[c[0], v.cfg_line()] + c[2:] for c in cases]
-        rc_i, ci, rc_m, cm = MM.run_cases(exe, vc)
-        ctx.stats["programs"] = ctx.stats.get("programs", 0) + 1
-        pi = [neutral_projection(x) for x in ci]
-        pm = [neutral_projection(x) for x in cm]
-        ctx.stats["evaluations"] += len(ci)
-        for x in pi:
-            ctx.stats["distinct"].add(hash(tuple(x)))
-        if ref is None:
-            ref = (v, pi)
-        else:
-            for k, (a, b) in enumerate(zip(ref[1], pi)):
+    nvariants = 0
+    for manual in (False, True):
+        base = dict(n=3, L=3, head=True, payload="u8", ctx="ref", manual=manual)
+        variants = []
+        flags = list(itertools.product([False, True], repeat=4))
+        if not ctx.thorough:
+            flags = [f for k, f in enumerate(flags) if k in (0, 1, 2, 4, 8, 15, 6, 9)]
+        extras = [(), ("FFSM2_ENABLE_STRUCTURE_REPORT",), ("FFSM2_ENABLE_DEBUG_STATE_TYPE",), ("FFSM2_DISABLE_TYPEINDEX",),
+                  ("FFSM2_ENABLE_STRUCTURE_REPORT", "FFSM2_ENABLE_DEBUG_STATE_TYPE", "FFSM2_DISABLE_TYPEINDEX")]
+        for k, (pl, hi, se, lg) in enumerate(flags):
+            variants.append(G.Config(plans=pl, history=hi, serial=se, log=lg, extra_defs=extras[k % len(extras)] if ctx.thorough or k < 5 else (), **base))
+        nvariants += len(variants)
+        gen_cfg = G.Config(plans=False, history=False, serial=False, log=False, **base)
+        cases = [MM.gen_case(ctx.rng, gen_cfg, "n%d" % k, ctx.rng.randint(8, 20), {"menu": {"save": 0, "load": 0, "succeed": 0, "fail": 0, "planAppend": 0,
+                 "planClear": 0, "planRemove": 0, "replayTransition": 0, "attachLogger": 0, "replayEnter": 0, "exit": 10, "enter": 12, "changeTo": 14}}) for k in range(120 if ctx.thorough else 40)]
+        with ThreadPoolExecutor(max_workers=C.NCPU) as ex:
+            built = list(ex.map(MM.build, variants))
+        ref = None
+        for v, (exe, logtxt) in zip(variants, built):
+            if exe is None:
+                ctx.failures.append({"what": "machine harness does not compile under " + v.cfg_line()[:100] + " " + str(v.extra_defs),
+                                     "log": "\n".join([l for l in logtxt.split("\n") if "error" in l][:8])})
+                continue
+            vc = [[c[0], v.cfg_line()] + c[2:] for c in cases]
+            rc_i, ci, rc_m, cm = MM.run_cases(exe, vc, timeout=120)
+            ctx.stats["programs"] = ctx.stats.get("programs", 0) + 1
+            pi = [neutral_projection(x) for x in ci]
+            pm = [neutral_projection(x) for x in cm]
+            ctx.stats["evaluations"] += len(ci)
+            for x in pi:
+                ctx.stats["distinct"].add(hash(tuple(x)))
+            if ref is None:
+                ref = (v, pi)
+            else:
+                for k, (a, b) in enumerate(zip(ref[1], pi)):
+                    if a != b:
+                        j = next((q for q in range(min(len(a), len(b))) if a[q] != b[q]), 0)
+                        def still(c, _e1=built[0][0], _e2=exe, _v0=ref[0], _v=v):
+                            r1 = MM.run_cases(_e1, [[c[0], _v0.cfg_line()] + c[2:]], timeout=60)[1]
+                            r2 = MM.run_cases(_e2, [[c[0], _v.cfg_line()] + c[2:]], timeout=60)[1]
+                            return bool(r1) and bool(r2) and neutral_projection(r1[0]) != neutral_projection(r2[0])
+                        mc = MM.minimise_case(exe, vc[k], "C19", still)
+                        ctx.failures.append({"what": "enabling unused features changes observable behaviour", "base": ref[0].cfg_line()[:110],
+                                             "variant": v.cfg_line()[:110] + " " + str(v.extra_defs), "minimal_case": mc, "base_trace": a[max(0, j - 2):j + 2], "variant_trace": b[max(0, j - 2):j + 2]})
+                        break
+            for k, (a, b) in enumerate(zip(pi, pm)):
                 if a != b:
-                    j = next((q for q in range(min(len(a), len(b))) if a[q] != b[q]), 0)
-                    ctx.failures.append({"what": "enabling unused features changes observable behaviour", "base": ref[0].cfg_line()[:110],
-                                         "variant": v.cfg_line()[:110] + " " + str(v.extra_defs), "case": vc[k], "base_trace": a[max(0, j - 2):j + 2], "variant_trace": b[max(0, j - 2):j + 2]})
+                    ctx.disagreements.append({"cfg": v.cfg_line()[:110], "case": vc[k][0]})
                     break
-        for k, (a, b) in enumerate(zip(pi, pm)):
-            if a != b:
-                ctx.disagreements.append({"cfg": v.cfg_line()[:110], "case": vc[k][0]})
-                break
+    variants = list(range(nvariants))
     ctx.extra["feature_variants"] = len(variants)
     if len(ctx.samples) < 2:
-        ctx.samples.append({"ops": [l for l in cases[0] if l.startswith("op ")][:12], "variants": [v.cfg_line()[40:110] for v in variants[:4]]})
+        ctx.samples.append({"ops": [l for l in cases[0] if l.startswith("op ")][:12], "variants": nvariants})
     C.prune_cache()
 
 
@@ -350,6 +378,19 @@ def c18_run(ctx):
     C.prune_cache()
 
 
+def c12_run(ctx):
+    machine_run("C12")(ctx)
+    ns = [(1, 0), (2, 1), (7, 0), (8, 1), (127, 0), (128, 1), (200, 0)] + ([(n, n % 2) for n in (3, 15, 16, 17, 31, 32, 33, 63, 64, 65, 129, 254, 255)] if ctx.thorough else [])
+    with ThreadPoolExecutor(max_workers=C.NCPU) as ex:
+        results = list(ex.map(lambda a: (a, S.run_serial(*a)), ns))
+    for (n, manual), (problems, rows) in results:
+        ctx.stats["evaluations"] += rows
+        for p in problems:
+            ctx.failures.append({"what": p, "replay_cmd": "vlib.structure.run_serial(%d, %d)" % (n, manual)})
+    ctx.extra["serial_sweep_state_counts"] = [n for n, _ in ns]
+    C.prune_cache()
+
+
 TV = "translation_validation"
 REGISTRY = {
     "C13": Spec("FFSM2.Props.C13", ["bitwidth", "contain", "typebits", "buffers"], container_run(["bitstream"])),
@@ -366,10 +407,10 @@ REGISTRY = {
     "C05": Spec(None, ["ids"], machine_run("C05"), level=TV),
     "C06": Spec(None, ["ids"], machine_run("C06"), level=TV),
     "C07": Spec(None, ["ids"], machine_run("C07"), level=TV),
-    "C08": Spec(None, ["ids", "config"], machine_run("C08"), level=TV),
-    "C09": Spec(None, ["ids", "config"], machine_run("C09"), level=TV),
+    "C08": Spec(None, ["ids", "config"], machine_run("C08", ("random", "planveto")), level=TV),
+    "C09": Spec(None, ["ids", "config"], machine_run("C09", ("random", "planveto")), level=TV),
     "C11": Spec(None, ["ids"], machine_run("C11", ("random", "replica")), level=TV),
-    "C12": Spec(None, ["ids", "serial", "bitwidth", "contain", "typebits", "buffers"], machine_run("C12"), level=TV),
+    "C12": Spec(None, ["ids", "serial", "bitwidth", "contain", "typebits", "buffers"], c12_run, level=TV),
     "C16": Spec(None, ["ids"], machine_run("C16"), level=TV),
     "C17": Spec(None, ["ids"], machine_run("C17"), level=TV),
 }
